@@ -144,6 +144,9 @@ func (e *Engine) verifyFunction(fn *ssa.Function, spec *FuncSpec, sweep bool) *F
 		}
 	}
 	if spec != nil {
+		for _, w := range spec.UnguardedWhy {
+			c.assumed[shortFuncName(fn, c.eng.modPath)+" "+w] = true
+		}
 		// ghost vars
 		for _, g := range spec.GhostVars {
 			env := c.newEnv(fr, st, entry)
@@ -203,6 +206,7 @@ func (e *Engine) verifyFunction(fn *ssa.Function, spec *FuncSpec, sweep bool) *F
 				n := ord[ex.ret]
 				if spec != nil && spec.VacuousOK[n] != "" {
 					c.note(fmt.Sprintf("return#%d declared unreachable under the contract: %s", n, spec.VacuousOK[n]))
+					c.assumed[fmt.Sprintf("return#%d of %s is declared unreachable under the contract (no vacuity canary): %s", n, shortFuncName(fn, e.modPath), spec.VacuousOK[n])] = true
 					continue
 				}
 				o := c.oblige("canary", fmt.Sprintf("return#%d", n), ex.cond, "false", c.eng.posOf(ex.ret.Pos()), "vacuity canary for one return path", nil)
@@ -1010,8 +1014,10 @@ func (c *FnCtx) applyContract(bc *blockCtx, spec *FuncSpec, cc *ssa.CallCommon, 
 		occ = bc.fr.callOcc[short]
 		bc.fr.callOcc[short] = occ + 1
 	}
-	if spec.Ext || spec.Trusted != "" {
+	if spec.Ext {
 		c.assumed[short] = true
+	} else if spec.Trusted != "" {
+		c.assumed[short+" (trusted, body not verified against it: "+spec.Trusted+")"] = true
 	}
 	sig := cc.Signature()
 	fnames := formalNames(spec, sig, callee, len(args))
